@@ -1,8 +1,11 @@
-import PlinioVerif.Model.PIT.Net
-import Mathlib.Data.List.Induction
+import PlinioVerif.Props.C09
 /-!
 # C04 — PIT cost equals the real cost of the network that export would produce
-(first part; extended below as the network-level lemmas land)
+
+Statements about the executable model: `nodeParams/nodeOps` is what `PIT._get_single_cost` charges
+a layer with `discrete_cost=True` (the `params` / `ops` specifications), `exportedNodeParams/Ops`
+the same metric of the layer `export` builds from the export plan (number of kept output features
+x kept input features x alive taps, plus biases).  For every program and mask assignment.
 -/
 namespace PlinioVerif.C04
 open PlinioVerif.PIT
@@ -23,5 +26,84 @@ theorem keptIdx_length (m : List Bool) : (keptIdx m).length = countT m := by
       simp [List.getD_eq_getElem?_getD, List.getElem?_append_left hi]
     rw [h1, ih]
     cases b <;> simp [List.getD_eq_getElem?_getD]
+
+variable (p : Prog) (ms : List (List Bool))
+
+/-- a depthwise layer's alive outputs are as many as the alive features feeding it (what the mask
+sharing guarantees on supported programs, see `C09.depthwise_follows_input`) -/
+def DwAligned : Prop :=
+  ∀ n s a, getOp p n = .dw s a → countT (inMask p ms n) = countT (ms.getD n [])
+
+/-- **layer by layer, the discrete `params` cost is the cost of the exported layer**: number of
+weights and biases of the Conv/Linear that `export` builds -/
+theorem node_params_eq_export (hdw : DwAligned p ms) (n : ℕ) (hs : (getOp p n).searchable = true) :
+    nodeParams p ms false n = exportedNodeParams p ms n := by
+  unfold nodeParams exportedNodeParams planOf
+  simp only [keptIdx_length]
+  cases hop : getOp p n with
+  | conv s c a => simp only; ring
+  | dw s a => simp only; rw [hdw n s a hop]; ring
+  | lin s c a => simp only; ring
+  | _ => simp_all [Op.searchable]
+
+theorem node_ops_eq_export (hdw : DwAligned p ms) (n : ℕ) (hs : (getOp p n).searchable = true) :
+    nodeOps p ms false n = exportedNodeOps p ms n := by
+  unfold nodeOps exportedNodeOps
+  rw [node_params_eq_export p ms hdw n hs]
+  cases hop : getOp p n <;> simp_all [Op.searchable]
+
+/-- layers that are not searchable are not charged without `full_cost` -/
+theorem node_params_not_searchable (n : ℕ) (hs : (getOp p n).searchable = false) :
+    nodeParams p ms false n = 0 ∧ exportedNodeParams p ms n = 0 := by
+  unfold nodeParams exportedNodeParams
+  cases hop : getOp p n <;> simp_all [Op.searchable]
+
+/-- **C04, headline**: the discrete `params` cost of the PIT model is the number of weights and
+biases of the searchable layers of the exported network … -/
+theorem discrete_params_eq_export_params (hdw : DwAligned p ms) :
+    costParams p ms false = exportedParams p ms := by
+  unfold costParams exportedParams
+  congr 1
+  apply List.map_congr_left
+  intro n _
+  cases hs : (getOp p n).searchable
+  · obtain ⟨h1, h2⟩ := node_params_not_searchable p ms n hs; rw [h1, h2]
+  · exact node_params_eq_export p ms hdw n hs
+
+/-- … and the discrete `ops` cost is the operation count of the exported network -/
+theorem discrete_ops_eq_export_ops (hdw : DwAligned p ms) :
+    costOps p ms false = exportedOps p ms := by
+  unfold costOps exportedOps
+  congr 1
+  apply List.map_congr_left
+  intro n _
+  cases hs : (getOp p n).searchable
+  · unfold nodeOps exportedNodeOps
+    obtain ⟨h1, h2⟩ := node_params_not_searchable p ms n hs
+    cases hop : getOp p n <;> simp_all [Op.searchable]
+  · exact node_ops_eq_export p ms hdw n hs
+
+/-- the hypothesis of the two theorems holds for the masks the features calculators report on
+every supported program -/
+theorem dwAligned_of_supported (l : List ℕ) (α : ℕ → List Rat) (hl : computeLabels p = some l)
+    (hws : wellShaped p = true) (hsup : supported p = true) (hne : noExcluded p = true) :
+    DwAligned p (aliveMasks p l α) := by
+  intro n s a hop
+  by_cases hn : n < p.length
+  · have hop' : p[n] = .dw s a := by rw [← getOp_eq p n hn]; exact hop
+    have := C09.depthwise_follows_input p l α hl hws hsup hne n s a hn hop'
+    unfold inMask; rw [hop]; simp only [Op.inputs, List.headD_cons]; rw [this]
+  · unfold getOp at hop
+    rw [List.getD_eq_getElem?_getD, List.getElem?_eq_none (by omega)] at hop
+    cases hop
+
+/-- with every mask open a layer is charged its static size: the cost of the original model -/
+theorem open_masks_node_cost (n s c : ℕ) (a : LAttr) (hop : getOp p n = .conv s c a)
+    (hout : ms.getD n [] = List.replicate c true)
+    (hin : inMask p ms n = List.replicate ((widths p).getD s 0) true) :
+    nodeParams p ms false n = c * ((widths p).getD s 0 * a.k + b2n a.bias) := by
+  unfold nodeParams
+  rw [hop, hout, hin]
+  simp [countT]
 
 end PlinioVerif.C04
